@@ -112,11 +112,20 @@ Fixpoint prefix_inv (f : file) : bool :=
   | b :: t => inv_bat b && (is_adv b || prefix_inv t)
   end.
 
-(* files of the Reader and of the constructors: every element of File.Batches was made
-   by NewBatch(bh) / NewBatchXXX(bh) with bh != nil, which also sets Control = NewBatchControl()
-   (reader.go parseBatchHeader / parseBatchControl + File.AddBatch; batch.go NewBatch) *)
-Definition new_batch (sec : bytes) : bat := mkbat (Some sec) true.
-Definition built (secs : list bytes) : file := map new_batch secs.
+(* files of the constructors: every element of File.Batches is made by NewBatch(bh) with
+   bh != nil (batch.go NewBatch -> NewBatchXXX).  Every NewBatchXXX sets Control =
+   NewBatchControl() — except NewBatchADV, which sets only ADVControl and leaves Control nil. *)
+Definition new_batch (sec : bytes) : bat := mkbat (Some sec) (negb (bytes_eqb sec adv)).
+Definition built (secs : list bytes) : file := map new_batch secs.   (* AddBatch(NewBatch(bh)) ... *)
+
+(* File.Create, once past its header / batch-count checks, calls f.IsADV() (everything else
+   it does rewrites counts and sums, not these pointers); Reader.Read builds its batches
+   with NewBatch as well and ends with r.File.IsADV() (unless the line limit or a scanner
+   error cuts it short); FileFromJSON calls IsADV and Create *)
+Definition created (secs : list bytes) : file := install (built secs).
+Definition reader_file (secs : list bytes) : file := install (built secs).
+
+Definition no_adv (secs : list bytes) : bool := forallb (fun s => negb (bytes_eqb s adv)) secs.
 
 (* ---- semantics of the table's effect classes, for the trace theorem *)
 Fixpoint upd (i : nat) (g : bat -> bat) (f : file) : file :=
